@@ -183,28 +183,53 @@ class FakeClient:
 
 
 class DownloadProducer(Producer):
+    """the fetcher's own image download path: Fetcher._download_image -> download_to_file -> transport.download_with_retries"""
     name = "download"
+    TITLE = "File:A.png"
 
     def prepare(self, sbx, previous):
         os.makedirs(os.path.join(sbx, "images"))
         if previous:
-            with open(os.path.join(sbx, "images", "File~58~A.png"), "wb") as f:
+            with open(os.path.join(sbx, "images", "FileA.png"), "wb") as f:
                 f.write(OLD_IMAGE)
 
     def run(self, sbx):
+        import gevent.pool
         from mwlib.network import fetch
+
+        class Out:
+            path = sbx
+            imgcount = 0
+            get_imagepath = fetch.FsOutput.get_imagepath
+
         fetch._get_download_client = lambda url: FakeClient()
-        path = os.path.join(sbx, "images", "File~58~A.png")
-        fetch.download_to_file("http://wiki.example/images/A.png", path, (path + "\xb7").encode("utf-8"))
+        f = fetch.Fetcher.__new__(fetch.Fetcher)
+        f.fsout = Out()
+        f.image_download_pool = gevent.pool.Pool(1)
+        f.pool = gevent.pool.Pool()
+        f._download_image("http://wiki.example/images/A.png", self.TITLE)
+        f.pool.join(raise_error=True)
 
     def judge(self, sbx, previous):
-        p = os.path.join(sbx, "images", "File~58~A.png")
+        import re
+        d = os.path.join(sbx, "images")
+        p = os.path.join(d, "FileA.png")
         if not os.path.exists(p):
-            return "image file vanished although a previous version existed" if previous else None
-        raw = open(p, "rb").read()
-        if raw == IMAGE_BYTES or (previous and raw == OLD_IMAGE):
-            return None
-        return "image file holds %d bytes, neither the %d served nor the previous version" % (len(raw), len(IMAGE_BYTES))
+            if previous:
+                return "image file vanished although a previous version existed"
+        else:
+            raw = open(p, "rb").read()
+            if not (raw == IMAGE_BYTES or (previous and raw == OLD_IMAGE)):
+                return "image file holds %d bytes, neither the %d served nor the previous version" % (len(raw), len(IMAGE_BYTES))
+        # every name in the range of fs_escape (pure ASCII [-\w.~]) is the stored name of some legal image title, i.e. a name a
+        # reader opens: nothing partial may ever sit under such a name (the temporary file must live outside that name space)
+        for fn in sorted(os.listdir(d)):
+            if fn == "FileA.png" or not re.match(r"^[-\w.~]+$", fn, re.A):
+                continue
+            raw = open(os.path.join(d, fn), "rb").read()
+            if raw not in (IMAGE_BYTES, OLD_IMAGE):
+                return "a partial download (%d bytes) sits under %r, which is the stored name of another legal image title" % (len(raw), fn)
+        return None
 
 
 PRODUCERS = {p.name: p for p in (StatusProducer(), MakeZipProducer(), CreateZipProducer(), DownloadProducer())}
@@ -344,7 +369,7 @@ class C20(InputProp):
             shutil.rmtree(sbx, ignore_errors=True)
 
     def pubstate(self, prod, sbx):
-        for rel in ("status.json", "out/collection.zip", "images/File~58~A.png", "out/book.pdf"):
+        for rel in ("status.json", "out/collection.zip", "images/FileA.png", "out/book.pdf"):
             p = os.path.join(sbx, rel)
             if os.path.exists(p):
                 return (rel, os.path.getsize(p))
